@@ -254,3 +254,231 @@ pub proof fn lemma_same_request_same_canonical_string(m1: http::Method, u1: http
     requires method_text(m1) == method_text(m2), u1 == u2, hm_view(h1) == hm_view(h2), b1 == b2,
     ensures sig_input_spec(m1, u1, h1, b1) == sig_input_spec(m2, u2, h2, b2),
 {}
+
+// ---- canon_p: proof support -------------------------------------------------------------------------------------------
+pub proof fn lemma_lex_total(a: Seq<char>, b: Seq<char>)
+    requires a != b,
+    ensures lex_lt(a, b) || lex_lt(b, a),
+    decreases a.len()
+{
+    if a.len() == 0 { if b.len() == 0 { assert(a =~= b); } }
+    else if b.len() == 0 {}
+    else if a[0] == b[0] {
+        if a.drop_first() == b.drop_first() { assert(a =~= seq![a[0]] + a.drop_first()); assert(b =~= seq![b[0]] + b.drop_first()); }
+        lemma_lex_total(a.drop_first(), b.drop_first());
+    }
+}
+pub open spec fn asc_pairs(t: Seq<QPair>) -> bool {
+    forall|i: int, j: int| 0 <= i < j < t.len() ==> lex_lt(sort_key(#[trigger] t[i]), sort_key(#[trigger] t[j]))
+}
+pub proof fn lemma_insert_sorted(t: Seq<QPair>, p: QPair)
+    ensures
+        insert_sorted(t, p).len() == t.len() + 1,
+        forall|x: QPair| #[trigger] insert_sorted(t, p).contains(x) <==> (t.contains(x) || x == p),
+        asc_pairs(t) && (forall|i: int| 0 <= i < t.len() ==> sort_key(#[trigger] t[i]) != sort_key(p)) ==> asc_pairs(insert_sorted(t, p)),
+    decreases t.len()
+{
+    let r = insert_sorted(t, p);
+    if t.len() == 0 {
+        assert(r[0] == p);
+        assert forall|x: QPair| #[trigger] r.contains(x) <==> (t.contains(x) || x == p) by { if x == p { assert(r[0] == x); } }
+    } else if lex_lt(sort_key(p), sort_key(t.last())) {
+        let t1 = t.drop_last(); let r1 = insert_sorted(t1, p);
+        lemma_insert_sorted(t1, p);
+        assert(r == r1.push(t.last()));
+        assert forall|x: QPair| #[trigger] r.contains(x) <==> (t.contains(x) || x == p) by {
+            if r.contains(x) { let i = choose|i: int| 0 <= i < r.len() && r[i] == x; if i < r1.len() { assert(r1[i] == x); assert(r1.contains(x)); if t1.contains(x) { let k = choose|k: int| 0 <= k < t1.len() && t1[k] == x; assert(t[k] == x); } } else { assert(t[t.len() - 1] == x); } }
+            if t.contains(x) { let k = choose|k: int| 0 <= k < t.len() && t[k] == x; if k < t1.len() { assert(t1[k] == x); assert(t1.contains(x)); assert(r1.contains(x)); let i = choose|i: int| 0 <= i < r1.len() && r1[i] == x; assert(r[i] == x); } else { assert(r[r1.len() as int] == x); } }
+            if x == p { assert(r1.contains(x)); let i = choose|i: int| 0 <= i < r1.len() && r1[i] == x; assert(r[i] == x); }
+        }
+        if asc_pairs(t) && (forall|i: int| 0 <= i < t.len() ==> sort_key(#[trigger] t[i]) != sort_key(p)) {
+            assert(asc_pairs(t1)) by { assert forall|i: int, j: int| 0 <= i < j < t1.len() implies lex_lt(sort_key(#[trigger] t1[i]), sort_key(#[trigger] t1[j])) by { assert(lex_lt(sort_key(t[i]), sort_key(t[j]))); } }
+            assert forall|i: int| 0 <= i < t1.len() implies sort_key(#[trigger] t1[i]) != sort_key(p) by { assert(sort_key(t[i]) != sort_key(p)); }
+            assert(asc_pairs(r1));
+            assert forall|i: int, j: int| 0 <= i < j < r.len() implies lex_lt(sort_key(#[trigger] r[i]), sort_key(#[trigger] r[j])) by {
+                if j < r1.len() { assert(lex_lt(sort_key(r1[i]), sort_key(r1[j]))); }
+                else {
+                    assert(r1.contains(r1[i]));
+                    if r1[i] == p {} else { assert(t1.contains(r1[i])); let k = choose|k: int| 0 <= k < t1.len() && t1[k] == r1[i]; assert(lex_lt(sort_key(t[k]), sort_key(t[t.len() - 1]))); }
+                }
+            }
+        }
+    } else {
+        assert(r == t.push(p));
+        assert forall|x: QPair| #[trigger] r.contains(x) <==> (t.contains(x) || x == p) by {
+            if r.contains(x) { let i = choose|i: int| 0 <= i < r.len() && r[i] == x; if i < t.len() { assert(t[i] == x); } }
+            if t.contains(x) { let k = choose|k: int| 0 <= k < t.len() && t[k] == x; assert(r[k] == x); }
+            if x == p { assert(r[t.len() as int] == x); }
+        }
+        if asc_pairs(t) && (forall|i: int| 0 <= i < t.len() ==> sort_key(#[trigger] t[i]) != sort_key(p)) {
+            assert(sort_key(t[t.len() - 1]) != sort_key(p));
+            lemma_lex_total(sort_key(p), sort_key(t.last()));
+            assert forall|i: int, j: int| 0 <= i < j < r.len() implies lex_lt(sort_key(#[trigger] r[i]), sort_key(#[trigger] r[j])) by {
+                if j < t.len() { assert(lex_lt(sort_key(t[i]), sort_key(t[j]))); }
+                else if i == t.len() - 1 {}
+                else { assert(lex_lt(sort_key(t[i]), sort_key(t[t.len() - 1]))); lemma_lex_lt_trans(sort_key(t[i]), sort_key(t.last()), sort_key(p)); }
+            }
+        }
+    }
+}
+// "one segment per pair": sorting keeps every pair (no pair is dropped or merged)
+pub proof fn lemma_sort_pairs(ps: Seq<QPair>)
+    ensures
+        sort_pairs(ps).len() == ps.len(),
+        forall|x: QPair| #[trigger] sort_pairs(ps).contains(x) <==> ps.contains(x),
+        distinct_sort_keys(ps) ==> asc_pairs(sort_pairs(ps)),
+    decreases ps.len()
+{
+    if ps.len() == 0 {} else {
+        let p1 = ps.drop_last(); let t1 = sort_pairs(p1);
+        lemma_sort_pairs(p1);
+        lemma_insert_sorted(t1, ps.last());
+        let r = sort_pairs(ps);
+        assert forall|x: QPair| #[trigger] r.contains(x) <==> ps.contains(x) by {
+            if ps.contains(x) { let k = choose|k: int| 0 <= k < ps.len() && ps[k] == x; if k < p1.len() { assert(p1[k] == x); assert(p1.contains(x)); } }
+            if p1.contains(x) { let k = choose|k: int| 0 <= k < p1.len() && p1[k] == x; assert(ps[k] == x); }
+            if x == ps.last() { assert(ps[ps.len() - 1] == x); }
+        }
+        if distinct_sort_keys(ps) {
+            assert(distinct_sort_keys(p1)) by { assert forall|i: int, j: int| 0 <= i < p1.len() && 0 <= j < p1.len() && i != j implies sort_key(#[trigger] p1[i]) != sort_key(#[trigger] p1[j]) by { assert(sort_key(ps[i]) != sort_key(ps[j])); } }
+            assert forall|i: int| 0 <= i < t1.len() implies sort_key(#[trigger] t1[i]) != sort_key(ps.last()) by {
+                assert(t1.contains(t1[i])); assert(p1.contains(t1[i])); let k = choose|k: int| 0 <= k < p1.len() && p1[k] == t1[i];
+                assert(sort_key(ps[k]) != sort_key(ps[ps.len() - 1]));
+            }
+        }
+    }
+}
+pub open spec fn seg_for_key(ps: Seq<QPair>, k: Seq<char>, sg: Seq<char>) -> bool {
+    exists|j: int| 0 <= j < ps.len() && sort_key(#[trigger] ps[j]) == k && sg == segment(ps[j])
+}
+// the segments of the pairs, listed in ascending order of their (pairwise distinct) sort keys, are the canonical ones
+pub proof fn lemma_canon_p_by_keys(ps: Seq<QPair>, kv: Seq<Seq<char>>, segs: Seq<Seq<char>>)
+    requires
+        distinct_sort_keys(ps), ascending(kv), segs.len() == kv.len(),
+        forall|i: int| 0 <= i < kv.len() ==> #[trigger] seg_for_key(ps, kv[i], segs[i]),
+        forall|j: int| 0 <= j < ps.len() ==> kv.contains(sort_key(#[trigger] ps[j])),
+    ensures segs == segments(sort_pairs(ps)),
+{
+    let t = sort_pairs(ps);
+    lemma_sort_pairs(ps);
+    let tk = Seq::new(t.len(), |i: int| sort_key(t[i]));
+    assert(ascending(tk)) by { assert forall|i: int, j: int| 0 <= i < j < tk.len() implies lex_lt(#[trigger] tk[i], #[trigger] tk[j]) by { assert(lex_lt(sort_key(t[i]), sort_key(t[j]))); } }
+    assert forall|x: Seq<char>| tk.to_set().contains(x) == kv.to_set().contains(x) by {
+        if tk.contains(x) { let i = choose|i: int| 0 <= i < tk.len() && tk[i] == x; assert(t.contains(t[i])); assert(ps.contains(t[i])); let j = choose|j: int| 0 <= j < ps.len() && ps[j] == t[i]; assert(kv.contains(sort_key(ps[j]))); }
+        if kv.contains(x) { let i = choose|i: int| 0 <= i < kv.len() && kv[i] == x; assert(seg_for_key(ps, kv[i], segs[i])); let j = choose|j: int| 0 <= j < ps.len() && sort_key(#[trigger] ps[j]) == kv[i] && segs[i] == segment(ps[j]); assert(ps.contains(ps[j])); assert(t.contains(ps[j])); let m = choose|m: int| 0 <= m < t.len() && t[m] == ps[j]; assert(tk[m] == x); }
+    }
+    assert(tk.to_set() =~= kv.to_set());
+    lemma_sorted_enum_unique(tk, kv, kv.to_set());
+    assert forall|i: int| 0 <= i < segs.len() implies segs[i] == segments(t)[i] by {
+        assert(seg_for_key(ps, kv[i], segs[i]));
+        let j = choose|j: int| 0 <= j < ps.len() && sort_key(#[trigger] ps[j]) == kv[i] && segs[i] == segment(ps[j]);
+        assert(t.contains(t[i])); assert(ps.contains(t[i]));
+        let j2 = choose|j2: int| 0 <= j2 < ps.len() && ps[j2] == t[i];
+        assert(tk[i] == kv[i]);
+        assert(sort_key(ps[j2]) == sort_key(ps[j]));
+        assert(j2 == j);
+    }
+    assert(segs =~= segments(t));
+}
+pub proof fn lemma_join_amp_push(segs: Seq<Seq<char>>, sg: Seq<char>)
+    ensures join_amp(segs.push(sg)) == (if segs.len() == 0 { sg } else { join_amp(segs) + "&"@ + sg }),
+{ assert(segs.push(sg).drop_last() =~= segs); }
+// the map entry built for the sort key k comes from one of the first n pairs
+pub open spec fn entry_for_key(ps: Seq<QPair>, n: int, k: Seq<char>, e0: Seq<char>, e1: Seq<char>) -> bool {
+    exists|j: int| 0 <= j < n && j < ps.len() && sort_key(#[trigger] ps[j]) == k && e0 == lower(ps[j].0) && e1 == ps[j].1
+}
+
+// ---- every finite set of names has an ascending enumeration (so sorted_names / canon_h are well defined) --------------
+pub open spec fn is_max(s: Set<Seq<char>>, m: Seq<char>) -> bool { s.contains(m) && forall|x: Seq<char>| #[trigger] s.contains(x) ==> !lex_lt(m, x) }
+pub proof fn lemma_max_exists(s: Set<Seq<char>>)
+    requires s.len() > 0,
+    ensures exists|m: Seq<char>| is_max(s, m),
+    decreases s.len()
+{
+    let e = s.choose();
+    assert(s.contains(e));
+    let s1 = s.remove(e);
+    if s1.len() == 0 {
+        assert forall|x: Seq<char>| #[trigger] s.contains(x) implies !lex_lt(e, x) by { if x != e { assert(s1.contains(x)); } else { lemma_lex_lt_irrefl(e); } }
+        assert(is_max(s, e));
+    } else {
+        lemma_max_exists(s1);
+        let m1 = choose|m: Seq<char>| is_max(s1, m);
+        if lex_lt(m1, e) {
+            assert forall|x: Seq<char>| #[trigger] s.contains(x) implies !lex_lt(e, x) by {
+                if x != e { assert(s1.contains(x)); if lex_lt(e, x) { lemma_lex_lt_trans(m1, e, x); } } else { lemma_lex_lt_irrefl(e); }
+            }
+            assert(is_max(s, e));
+        } else {
+            assert forall|x: Seq<char>| #[trigger] s.contains(x) implies !lex_lt(m1, x) by { if x != e { assert(s1.contains(x)); } }
+            assert(is_max(s, m1));
+        }
+    }
+}
+pub proof fn lemma_sorted_enum_exists(s: Set<Seq<char>>)
+    ensures sorted_enum(sorted_names(s), s),
+    decreases s.len()
+{
+    if s.len() == 0 {
+        let e = Seq::<Seq<char>>::empty();
+        assert(e.to_set() =~= s);
+        assert(sorted_enum(e, s));
+    } else {
+        lemma_max_exists(s);
+        let m = choose|m: Seq<char>| is_max(s, m);
+        let s1 = s.remove(m);
+        lemma_sorted_enum_exists(s1);
+        let k1 = sorted_names(s1);
+        let ks = k1.push(m);
+        assert forall|i: int, j: int| 0 <= i < j < ks.len() implies lex_lt(#[trigger] ks[i], #[trigger] ks[j]) by {
+            if j < k1.len() { assert(lex_lt(k1[i], k1[j])); }
+            else { assert(k1.to_set().contains(k1[i])); assert(s1.contains(k1[i])); assert(s.contains(k1[i])); lemma_lex_total(k1[i], m); }
+        }
+        assert forall|x: Seq<char>| ks.to_set().contains(x) == s.contains(x) by {
+            if ks.contains(x) { let i = choose|i: int| 0 <= i < ks.len() && ks[i] == x; if i < k1.len() { assert(k1.to_set().contains(k1[i])); } }
+            if s.contains(x) { if x == m { assert(ks[k1.len() as int] == x); } else { assert(s1.contains(x)); assert(k1.to_set().contains(x)); let i = choose|i: int| 0 <= i < k1.len() && k1[i] == x; assert(ks[i] == x); } }
+        }
+        assert(ks.to_set() =~= s);
+        assert(sorted_enum(ks, s));
+    }
+}
+
+// ---- G6 support: what is signed is what the host receives --------------------------------------------------------------
+// the canonical headers do not depend on the authorization header: adding / replacing it (which is what the proxy does
+// AFTER computing the signature) leaves canon_h unchanged
+pub proof fn lemma_header_lines_frame(ks: Seq<Seq<char>>, hm1: HMap, hm2: HMap)
+    requires forall|i: int| 0 <= i < ks.len() ==> hm1[#[trigger] ks[i]] == hm2[ks[i]],
+    ensures header_lines(ks, hm1) == header_lines(ks, hm2),
+    decreases ks.len()
+{
+    if ks.len() > 0 {
+        assert forall|i: int| 0 <= i < ks.drop_last().len() implies hm1[#[trigger] ks.drop_last()[i]] == hm2[ks.drop_last()[i]] by { assert(ks.drop_last()[i] == ks[i]); }
+        lemma_header_lines_frame(ks.drop_last(), hm1, hm2);
+        assert(hm1[ks[ks.len() - 1]] == hm2[ks[ks.len() - 1]]);
+    }
+}
+pub proof fn lemma_canon_h_ignores_authorization(hm: HMap, v: Seq<http::header::HeaderValue>)
+    requires lower(AUTH_H()) == AUTH_H(),
+    ensures canon_h(hm.insert(AUTH_H(), v)) == canon_h(hm),   // @C04.lemma_canon_h_ignores_authorization.signed_headers_are_the_sent_headers_minus_authorization
+{
+    let hm2 = hm.insert(AUTH_H(), v);
+    assert(signed_names(hm2) =~= signed_names(hm));
+    let ks = sorted_names(signed_names(hm));
+    lemma_sorted_enum_exists(signed_names(hm));
+    assert forall|i: int| 0 <= i < ks.len() implies hm2[#[trigger] ks[i]] == hm[ks[i]] by {
+        assert(ks.to_set().contains(ks[i])); assert(signed_names(hm).contains(ks[i]));
+    }
+    lemma_header_lines_frame(ks, hm2, hm);
+}
+pub proof fn lemma_sig_input_ignores_authorization(m: http::Method, u: http::Uri, h1: http::HeaderMap, h2: http::HeaderMap, v: Seq<http::header::HeaderValue>, body: Seq<u8>)
+    requires lower(AUTH_H()) == AUTH_H(), hm_view(h2) == hm_view(h1).insert(AUTH_H(), v),
+    ensures sig_input_spec(m, u, h2, body) == sig_input_spec(m, u, h1, body),
+{ lemma_canon_h_ignores_authorization(hm_view(h1), v); }
+// F9 (observation): for header maps in which every name has one value, the choice made by signed_value is immaterial:
+// every line carries THE value of its name
+pub proof fn lemma_canon_h_single_valued(hm: HMap, ks: Seq<Seq<char>>)
+    requires single_valued(hm), forall|i: int| 0 <= i < ks.len() ==> hm.contains_key(#[trigger] ks[i]),
+    ensures forall|i: int| 0 <= i < ks.len() ==> signed_value(hm[#[trigger] ks[i]]) == hm[ks[i]][0],
+{
+    assert forall|i: int| 0 <= i < ks.len() implies signed_value(hm[#[trigger] ks[i]]) == hm[ks[i]][0] by { assert(hm[ks[i]].len() == 1); }
+}
